@@ -101,4 +101,78 @@ def toStr (x : F) : String :=
   let c := canon x
   s!"{c.m}p{c.e}"
 
+
+/-! ### additions for C19 (tax): correctly rounded addition / subtraction, signed values
+
+`roundNat n e` rounds the exact value `n * 2^e` to 53 significant bits (round to nearest,
+ties to even).  `fadd` is IEEE-754 binary64 addition of two finite non-negative doubles
+(exact sum on the common exponent, then one rounding).  `SF` adds a sign, which is needed
+for `1.0 - total` when a float sum has crept above 1.  Same range assumption as above
+(no subnormals, no overflow). -/
+
+/-- `n * 2^e` rounded to 53 significant bits, round-to-nearest-even -/
+def roundNat (n : Nat) (e : Int) : F :=
+  if n = 0 then ⟨0, 0⟩
+  else
+    let d := bitlen n - 53
+    let m := shiftRNE n d false
+    if m = 2 ^ 53 then ⟨2 ^ 52, e + (d : Int) + 1⟩ else ⟨m, e + (d : Int)⟩
+
+/-- the two mantissas on the common (smaller) exponent -/
+def alignL (x y : F) : Nat := x.m * 2 ^ (x.e - min x.e y.e).toNat
+def alignR (x y : F) : Nat := y.m * 2 ^ (y.e - min x.e y.e).toNat
+
+/-- correctly rounded sum of two non-negative doubles (`x + y`) -/
+def fadd (x y : F) : F :=
+  if x.m = 0 then y
+  else if y.m = 0 then x
+  else roundNat (alignL x y + alignR x y) (min x.e y.e)
+
+/-- correctly rounded product of two non-negative doubles (`x * y`) -/
+def fmul (x y : F) : F := roundNat (x.m * y.m) (x.e + y.e)
+
+/-- a finite double with a sign: value `(-1)^neg * a` -/
+structure SF where
+  neg : Bool
+  a : F
+deriving Repr, DecidableEq, Inhabited
+
+namespace SF
+
+def zero : SF := ⟨false, ⟨0, 0⟩⟩
+def one : SF := ⟨false, ⟨1, 0⟩⟩
+def ofF (x : F) : SF := ⟨false, x⟩
+
+/-- `x - y` of two non-negative doubles, correctly rounded -/
+def subF (x y : F) : SF :=
+  if alignL x y ≥ alignR x y then ⟨false, roundNat (alignL x y - alignR x y) (min x.e y.e)⟩
+  else ⟨true, roundNat (alignR x y - alignL x y) (min x.e y.e)⟩
+
+/-- correctly rounded `x + y` -/
+def add (x y : SF) : SF :=
+  match x.neg, y.neg with
+  | false, false => ⟨false, fadd x.a y.a⟩
+  | true, true => ⟨true, fadd x.a y.a⟩
+  | false, true => subF x.a y.a
+  | true, false => subF y.a x.a
+
+/-- correctly rounded `x - y` -/
+def sub (x y : SF) : SF := add x ⟨!y.neg, y.a⟩
+
+/-- exact `x < y` -/
+def lt (x y : SF) : Bool :=
+  match x.neg, y.neg with
+  | false, false => !(ge x.a y.a)
+  | true, true => !(ge y.a x.a)
+  | false, true => false
+  | true, false => !(x.a.m = 0 && y.a.m = 0)
+
+/-- exact `x ≤ y` -/
+def le (x y : SF) : Bool := !(lt y x)
+
+def toStr (x : SF) : String :=
+  if x.neg && x.a.m ≠ 0 then "-" ++ F64.toStr x.a else F64.toStr x.a
+
+end SF
+
 end Sm.F64
